@@ -358,3 +358,38 @@ SPECS += [
                                              "stmt": True, "heap": True, "fuel": "(h.size + 1)", "updates": ["_adapters"]}},
          props=["C03"], **SCHED_COMMON),
 ]
+
+
+# ---- data/tools/mask.py, data/tools/info.py : the compatibility rule of the metadata exchange (C07) ---------------
+# masks: None / Mask.FLEX = -1 / Mask.NONE = -2 / an explicit mask k >= 0; grids and units are identifiers; what the
+# package says about two grids, two explicit masks, two units are parameters (relations: C15, C17, C18)
+MASK = "Opt[Int]"
+MASKEQ = "Lean:((Option Int) → (Option Int) → (Option Nat) → (Option Nat) → Except Err Bool)"
+SPECS += [
+    dict(lean="masks_compatible", path="data/tools/mask.py", qual="masks_compatible", group="Info",
+         params={"this": MASK, "incoming": MASK, "incoming_donwstream": "Bool", "this_grid": "Opt[Obj]", "incoming_grid": "Opt[Obj]"},
+         extra_params={"masksEqual": MASKEQ}, ret="Bool",
+         consts={"Mask.FLEX": ("(-1 : Int)", "Int"), "Mask.NONE": ("(-2 : Int)", "Int")},
+         conds={"mask_specified(downstream)": "(Py.maskSpecified downstream = true)",
+                "mask_specified(upstream)": "(Py.maskSpecified upstream = true)"},
+         calls={"masks_equal": {"lean": "masksEqual", "args": [0, 1, 2, 3], "argtypes": [MASK, MASK, "Opt[Obj]", "Opt[Obj]"], "ret": "Bool"}},
+         props=["C07"]),
+]
+
+SPECS += [
+    dict(lean="Info_accepts", path="data/tools/info.py", qual="Info.accepts", group="Info",
+         fields={"grid": "Opt[Obj]", "mask": MASK, "units": "Opt[Obj]"},
+         params={"incoming_donwstream": "Bool"}, ignore_params=["incoming", "fail_info"],
+         extra_params={"in_grid": "Opt[Obj]", "in_mask": MASK, "in_units": "Opt[Obj]",
+                       "gridCompat": "Lean:(Nat → (Option Nat) → Bool)", "unitsCompat": "Lean:(Nat → Nat → Bool)",
+                       "masksEqual": MASKEQ},
+         ret="Bool", locals={"u1": "Opt[Obj]", "u2": "Opt[Obj]"},
+         consts={"incoming.grid": ("in_grid", "Opt[Obj]"), "incoming.mask": ("in_mask", MASK), "incoming.units": ("in_units", "Opt[Obj]")},
+         conds={"self.grid.compatible_with(incoming.grid)": "(gridCompat (self_grid.getD 0) in_grid = true)",
+                "compatible_units(u1, u2)": "(unitsCompat (u1.getD 0) (u2.getD 0) = true)"},
+         assume_false=["not isinstance(incoming, Info)"],
+         drop_assign=["fail_info['grid']", "fail_info['mask']", "fail_info['units']"],
+         calls={"masks_compatible": {"lean": "masks_compatible", "args": [0, 1, 2, 3, 4, "masksEqual"],
+                                     "argtypes": [MASK, MASK, "Bool", "Opt[Obj]", "Opt[Obj]", MASKEQ], "ret": "Bool"}},
+         props=["C07"]),
+]
